@@ -7,6 +7,7 @@ import (
 	"os"
 	"path/filepath"
 	"sort"
+	"runtime/debug"
 	"strings"
 	"time"
 
@@ -167,11 +168,24 @@ func guarded(f func()) (crashed bool, other interface{}) {
 				crashed = true
 				return
 			}
-			other = x
+			// keep the stack of where it arose: the caller re-raises it, and a
+			// panic inside the database code is judged by where it came from
+			other = fmt.Sprintf("%v\n%s", x, panicStack())
 		}
 	}()
 	f()
 	return
+}
+
+func panicStack() string {
+	s := string(debug.Stack())
+	if i := strings.Index(s, "panic("); i >= 0 {
+		s = s[i:]
+	}
+	if len(s) > 3000 {
+		s = s[:3000]
+	}
+	return s
 }
 
 func execute(c *core.Ctx) {
